@@ -23,13 +23,38 @@ use crate::util;
 #[serde(tag = "a")]
 pub enum DAct {
     Tick { dt: u64 },
-    /// lease in ms, -1 = none announced
-    Spdp { p: u8, lease: i64 },
+    /// lease in ms, -1 = none announced.
+    /// defer (all events that notify the event loop): Discovery has updated the DiscoveryDB and sent its notification, but
+    /// the event loop (another thread) handles it only later, when the DB may already be ahead; notifications are handled
+    /// in the order sent.  The tables are observed at once, matched sets and status events when the notification is handled.
+    Spdp {
+        p: u8,
+        lease: i64,
+        #[serde(default)]
+        defer: bool,
+    },
     Alive { p: u8 },
-    Cleanup,
-    DisposeP { p: u8 },
-    Announce { e: u8 },
-    DisposeE { e: u8 },
+    Cleanup {
+        #[serde(default)]
+        defer: bool,
+    },
+    DisposeP {
+        p: u8,
+        #[serde(default)]
+        defer: bool,
+    },
+    Announce {
+        e: u8,
+        #[serde(default)]
+        defer: bool,
+    },
+    DisposeE {
+        e: u8,
+        #[serde(default)]
+        defer: bool,
+    },
+    /// the event loop catches up
+    Flush,
 }
 
 #[derive(Clone, Debug, Serialize, Deserialize)]
@@ -89,6 +114,32 @@ fn remote_qos(e: u8) -> QosPolicies {
     }
 }
 
+/// tables of the DiscoveryDB (Discovery side, at once)
+fn observe_tables(rig: &mut DiscRig) -> Value {
+    let v = rig.view();
+    let mut ext: Vec<i64> = v.ext_readers.iter().chain(v.ext_writers.iter()).map(e_of).collect();
+    ext.sort();
+    let mut att: Vec<i64> = v.attic_readers.iter().chain(v.attic_writers.iter()).map(e_of).collect();
+    att.sort();
+    json!({
+        "parts": v.participants.iter().map(p_of).filter(|p| *p >= 1 && *p <= 9).collect::<Vec<_>>(),
+        "ext": ext, "att": att,
+    })
+}
+
+/// matched sets and status events (event-loop side, when the notification has been handled)
+fn observe_matching(rig: &mut DiscRig) -> Value {
+    let v = rig.view();
+    let ws: Vec<Value> = rig.drain_writer_status().into_iter().map(|(k, g, cur, chg, tot)| json!({"k":k,"e":e_of(&g),"cur":cur,"chg":chg,"tot":tot})).collect();
+    let rs: Vec<Value> = rig.drain_reader_status().into_iter().map(|(k, g, cur, chg, tot)| json!({"k":k,"e":e_of(&g),"cur":cur,"chg":chg,"tot":tot})).collect();
+    json!({
+        "wm": v.writer_matched.iter().map(e_of).collect::<Vec<_>>(),
+        "rm": v.reader_matched.iter().map(e_of).collect::<Vec<_>>(),
+        "ws": ws, "rs": rs,
+    })
+}
+
+#[allow(dead_code)]
 fn observe(rig: &mut DiscRig) -> Value {
     let v = rig.view();
     let ws: Vec<Value> = rig.drain_writer_status().into_iter().map(|(k, g, cur, chg, tot)| json!({"k":k,"e":e_of(&g),"cur":cur,"chg":chg,"tot":tot})).collect();
@@ -113,57 +164,80 @@ fn merge(mut ev: Value, obs: Value) -> Value {
     ev
 }
 
+/// the event loop handles everything that is waiting, oldest first; each handled notification completes its event line
+fn flush(rig: &mut DiscRig, waiting: &mut std::collections::VecDeque<Value>, out: &mut Vec<Value>) {
+    while let Some(ev) = waiting.pop_front() {
+        rig.deliver_next();
+        let m = observe_matching(rig);
+        out.push(merge(ev, m));
+    }
+}
+
 pub fn run_one(run_no: usize, spec: &DRunSpec, out: &mut Vec<Value>) -> Vec<Vec<u8>> {
     let q = local_qos();
     let mut rig = DiscRig::new(&q, &q);
+    rig.defer = true; // the driver decides when the event loop runs
+    let mut waiting: std::collections::VecDeque<Value> = Default::default();
     out.push(json!({"ev":"Reset","run":run_no}));
+    // an event whose notification is deferred: line (with the tables as they are now) waits for the event loop
+    macro_rules! notified {
+        ($ev:expr, $defer:expr) => {{
+            let t = observe_tables(&mut rig);
+            waiting.push_back(merge($ev, t));
+            if !$defer {
+                flush(&mut rig, &mut waiting, out);
+            }
+        }};
+    }
     for a in &spec.acts {
         match a {
             DAct::Tick { dt } => {
                 rig.advance_clock_ms(*dt);
+                // (no notification; the line may overtake waiting ones: the abstract clock only matters to Cleanup, whose
+                // verdict is taken on the Discovery side at once)
+                flush(&mut rig, &mut waiting, out);
                 out.push(json!({"ev":"Tick","dt":dt}));
             }
-            DAct::Spdp { p, lease } => {
+            DAct::Spdp { p, lease, defer } => {
                 let _ = rig.spdp(prefix(*p), if *lease < 0 { None } else { Some(*lease) });
-                let o = observe(&mut rig);
-                out.push(merge(json!({"ev":"Spdp","p":p,"lease":lease}), o));
+                notified!(json!({"ev":"Spdp","p":p,"lease":lease}), *defer);
             }
             DAct::Alive { p } => {
+                flush(&mut rig, &mut waiting, out);
                 rig.alive(prefix(*p));
-                let o = observe(&mut rig);
-                out.push(merge(json!({"ev":"Alive","p":p}), o));
+                let t = observe_tables(&mut rig);
+                let m = observe_matching(&mut rig);
+                out.push(merge(merge(json!({"ev":"Alive","p":p}), t), m));
             }
-            DAct::Cleanup => {
+            DAct::Cleanup { defer } => {
                 let lost = rig.cleanup();
-                let o = observe(&mut rig);
-                out.push(merge(json!({"ev":"Cleanup","lost": lost.iter().map(|x| p_of(&x.0)).collect::<Vec<_>>(), "detail": lost.iter().map(|x| json!([p_of(&x.0), x.1, x.2])).collect::<Vec<_>>()}), o));
+                notified!(json!({"ev":"Cleanup","lost": lost.iter().map(|x| p_of(&x.0)).collect::<Vec<_>>(), "detail": lost.iter().map(|x| json!([p_of(&x.0), x.1, x.2])).collect::<Vec<_>>()}), *defer);
             }
-            DAct::DisposeP { p } => {
+            DAct::DisposeP { p, defer } => {
                 rig.dispose_participant(prefix(*p));
-                let o = observe(&mut rig);
-                out.push(merge(json!({"ev":"DisposeP","p":p}), o));
+                notified!(json!({"ev":"DisposeP","p":p}), *defer);
             }
-            DAct::Announce { e } => {
+            DAct::Announce { e, defer } => {
                 let topic = if ON_TOPIC[*e as usize] { "T" } else { "other" };
                 if IS_READER[*e as usize] {
                     rig.announce_reader(eguid(*e), topic, &remote_qos(*e));
                 } else {
                     rig.announce_writer(eguid(*e), topic, &remote_qos(*e));
                 }
-                let o = observe(&mut rig);
-                out.push(merge(json!({"ev":"Announce","e":e}), o));
+                notified!(json!({"ev":"Announce","e":e}), *defer);
             }
-            DAct::DisposeE { e } => {
+            DAct::DisposeE { e, defer } => {
                 if IS_READER[*e as usize] {
                     rig.dispose_reader(eguid(*e));
                 } else {
                     rig.dispose_writer(eguid(*e));
                 }
-                let o = observe(&mut rig);
-                out.push(merge(json!({"ev":"DisposeE","e":e}), o));
+                notified!(json!({"ev":"DisposeE","e":e}), *defer);
             }
+            DAct::Flush => flush(&mut rig, &mut waiting, out),
         }
     }
+    flush(&mut rig, &mut waiting, out);
     vec![]
 }
 
@@ -182,7 +256,7 @@ pub fn random_run(rng: &mut StdRng, n: usize) -> DRunSpec {
         match rng.gen_range(0..100) {
             0..=19 => {
                 let l = LEASES[rng.gen_range(0..LEASES.len())];
-                acts.push(DAct::Spdp { p, lease: l });
+                acts.push(DAct::Spdp { p, lease: l, defer: rng.gen_bool(0.3) });
                 known[p as usize] = true;
                 last[p as usize] = now;
                 lease[p as usize] = if l < 0 { 60_000 } else { l };
@@ -199,7 +273,7 @@ pub fn random_run(rng: &mut StdRng, n: usize) -> DRunSpec {
                 now += dt as i64;
             }
             50..=64 => {
-                acts.push(DAct::Cleanup);
+                acts.push(DAct::Cleanup { defer: rng.gen_bool(0.3) });
                 for q in 1..=2 {
                     if known[q] && now - last[q] > lease[q] {
                         known[q] = false;
@@ -207,7 +281,7 @@ pub fn random_run(rng: &mut StdRng, n: usize) -> DRunSpec {
                 }
             }
             65..=69 => {
-                acts.push(DAct::DisposeP { p });
+                acts.push(DAct::DisposeP { p, defer: rng.gen_bool(0.4) });
                 known[p as usize] = false;
             }
             70..=89 => {
@@ -216,14 +290,14 @@ pub fn random_run(rng: &mut StdRng, n: usize) -> DRunSpec {
                 // usually the participant is present (SPDP first); one time in five its SPDP has not been heard yet
                 if !known[o] && rng.gen_range(0..5) != 0 {
                     let l = LEASES[rng.gen_range(0..LEASES.len())];
-                    acts.push(DAct::Spdp { p: o as u8, lease: l });
+                    acts.push(DAct::Spdp { p: o as u8, lease: l, defer: rng.gen_bool(0.3) });
                     known[o] = true;
                     last[o] = now;
                     lease[o] = if l < 0 { 60_000 } else { l };
                 }
-                acts.push(DAct::Announce { e });
+                acts.push(DAct::Announce { e, defer: rng.gen_bool(0.3) });
             }
-            _ => acts.push(DAct::DisposeE { e: rng.gen_range(1..=NE) }),
+            _ => acts.push(DAct::DisposeE { e: rng.gen_range(1..=NE), defer: rng.gen_bool(0.3) }),
         }
     }
     DRunSpec { acts }
